@@ -199,11 +199,11 @@ def rank_schemes(n, perm, scheme):
     elif scheme == 1:
         # unranked fields come first in declaration order; rank the rest after them
         unr = sorted(perm[:1])
-        vals = [-1, 2, 1000][:n]
+        vals = [-1, 2, 1000, 5000, 6000][:n]
         for k, fi in enumerate(perm[1:]):
             ranks[fi] = vals[k]
     else:
-        vals = [ISIZE_MIN, -3, (1 << 63) - 1][:n]
+        vals = [ISIZE_MIN, -3, 11, (1 << 63) - 1][:n]
         for k, fi in enumerate(perm):
             ranks[fi] = vals[k]
         # field 1 unranked would collide with isize::MIN + 1 only if explicitly given; fine
